@@ -153,17 +153,25 @@ Proof.
   exact (perform_include_outer Q lim E _ (depth_balanced_proof Q lim E f) cur es ign s s' H).
 Qed.
 
-(* {% import lib as m %}: for a library of top-level text, set and macro statements, iterating m
-   yields exactly the names the library defines at its top level (exports_of reads them off the
-   library's text; exports_keys: a name is exported iff some top-level set / macro defines it). *)
+(* {% import lib as m %}: for a library of top-level text, set, set-block and macro statements,
+   iterating m yields exactly the names the library defines at its top level, and m.x is the value
+   the library assigned: the string of a set, the RENDERED TEXT of a set-block, the macro with the
+   variables it encloses (exports_of reads all this off the library's text; exports_keys: a name is
+   exported iff some top-level set / set-block / macro defines it). *)
 Theorem import_exports_exact : forall E main n m top ctx fuel,
   wf_env E = true -> find_tmpl E main = Ok (Some [IImport (NLit n) m; IKeys m]) ->
   find_tmpl E n = Ok (Some top) -> forallb is_simple top = true ->
-  render fixed_code None (S (S fuel)) E main ctx = Ok (key_tokens (exports_of top)).
+  render fixed_code None (S (S (S fuel))) E main ctx = Ok (key_tokens (exports_of ctx [[]] top)).
 Proof. exact import_exports_exact_proof. Qed.
 
-Theorem exports_keys : forall top x,
-  assoc x (exports_of top) <> None <-> existsb (defines x) top = true.
+Theorem import_exports_values : forall E main n m x top ctx fuel,
+  wf_env E = true -> find_tmpl E main = Ok (Some [IImport (NLit n) m; IPrintAttr m x]) ->
+  find_tmpl E n = Ok (Some top) -> forallb is_simple top = true ->
+  render fixed_code None (S (S (S fuel))) E main ctx = printed (assoc x (exports_of ctx [[]] top)).
+Proof. exact import_exports_values_proof. Qed.
+
+Theorem exports_keys : forall rt below top x,
+  assoc x (exports_of rt below top) <> None <-> existsb (defines x) top = true.
 Proof. exact exports_keys_proof. Qed.
 
 (* ---- non-vacuity: concrete instances ---- *)
@@ -199,6 +207,21 @@ Proof. vm_compute. split; reflexivity. Qed.
 Example cycles_are_errors_witness :
   let E := [ (1, TGood [IExtends (NLit 2); IText 201]); (2, TGood [IExtends (NLit 1)]) ] in
   wf_env E = true /\ render fixed_code None 3 E 1 [] = Err E_InvalidOperation /\ render fixed_code None 2 E 1 [] = OutOfGas.
+Proof. vm_compute. repeat split. Qed.
+
+(* from-import of a name defined by a set-BLOCK (also under a discarding output), the body of an
+   imported module, a child's top-level set-block used in a block (model only), and an aliased
+   from-import inside a macro that also reads the original name from its closure *)
+Example captures_and_closures_witness :
+  let E := [ (1, TGood [IFrom (NLit 2) [(40, 40); (41, 41)]; IPrint 40; IText 900; IPrint 41; IImport (NLit 2) 42; IPrint 42; IPrintAttr 42 40]);
+             (2, TGood [IText 201; ISetBlock 40 [IText 202; IPrint 50; IText 203]; ISet 41 204]);
+             (3, TGood [IExtends (NLit 4); ISetBlock 43 [IText 205; IPrint 50]; IBlock 20 false [IPrint 43]]);
+             (4, TGood [IText 210; IBlock 20 false []; IText 211]);
+             (5, TGood [ISet 41 206; IMacro 44 [IFrom (NLit 2) [(41, 45)]; IPrint 45; IText 900; IPrint 41]; ICall 44 0]) ] in
+  render fixed_code None 20 E 1 [(50, VStr [300])] = Ok [202; 300; 203; 900; 204; 201; 202; 300; 203] /\
+  render fixed_code None 20 E 3 [(50, VStr [300])] = Ok [210; 205; 300; 211] /\
+  render fixed_code None 20 E 5 [] = Ok [204; 900; 206] /\
+  srender 20 E 5 [] = Ok [204; 900; 206].
 Proof. vm_compute. repeat split. Qed.
 
 (* an empty definition in the middle of the chain is a definition: super() stops there *)
@@ -266,4 +289,5 @@ Print Assumptions unloadable_parent_is_error.
 Print Assumptions depth_balanced.
 Print Assumptions include_depth_balanced.
 Print Assumptions import_exports_exact.
+Print Assumptions import_exports_values.
 Print Assumptions exports_keys.
